@@ -542,8 +542,8 @@ func runJoined(p *core.Program, r *core.Report, rule string) {
 }
 
 func runC20(p *core.Program, r *core.Report) {
-	peach := p.Func(pkgEval, "peach")
-	rp := p.Func(pkgEval, "runParallel")
+	peach := builtinFn(p, "eval:peach", pkgEval, "peach")
+	rp := builtinFn(p, "eval:run-parallel", pkgEval, "runParallel")
 	if !r.Anchor("WG-DISCIPLINE", "eval.peach and eval.runParallel", peach != nil && rp != nil) {
 		return
 	}
